@@ -64,6 +64,10 @@ type c20In struct {
 	// the first incarnation went away (the notifier's Disconnected call), and the new connect
 	// arrives while it does
 	NotifierHoldMs int `json:"notifier_hold_ms,omitempty"`
+	// HeldBeforeRegister only: while the first inbound handshake handler is held, a second one for the
+	// same remote peer (the peer dialed twice; second connection) runs from its beginning to its end
+	// and registers the peer; the stream arrives after that, the first handler is released last
+	SecondHandler bool `json:"second_handler,omitempty"`
 }
 
 type c20Notifier struct {
@@ -393,6 +397,15 @@ func c20HeldBeforeRegister(t *testing.T, in c20In, rng *vrng) (obs c20Obs) {
 	case <-time.After(3 * time.Second):
 	}
 	obs.ConnectOK = true // the initiator has everything it waits for: its Connect returned
+	if in.SecondHandler {
+		ls2 := &c04Stream{rd: bytes.NewReader(wire), conn: &c04Conn{pid: w.remoteID}, writeFail: -1}
+		h2 := make(chan struct{})
+		go func() { defer close(h2); defer guard(); svc.handleConnectReq(ls2) }()
+		select {
+		case <-h2:
+		case <-time.After(3 * time.Second):
+		}
+	}
 	var hdr c13Buf20
 	_ = newMetadataStream(&hdr).WriteHeader(context.Background(), p2p.Header{})
 	st := &c04Stream{rd: bytes.NewReader(hdr.Bytes()), conn: conn, writeFail: -1}
@@ -427,6 +440,10 @@ func TestVerifC20(t *testing.T) {
 	for _, raw := range vcorpus() {
 		var in c20In
 		if json.Unmarshal(raw, &in) == nil {
+			if in.HeldBeforeRegister {
+				out.emitGuarded(in, c20Obs{Panic: true}, func() any { return c20HeldBeforeRegister(t, in, rng) })
+				continue
+			}
 			out.emitGuarded(in, c20Obs{Panic: true}, func() any { return c20Run(t, in, rng) })
 		}
 	}
@@ -471,6 +488,12 @@ func TestVerifC20(t *testing.T) {
 	for i, d := range []int{5, 60} {
 		r := roles[i%len(roles)]
 		in := c20In{Tag: "held-before-register", Gated: true, DelayMs: d, Streams: 1, ServerRole: r[0], ClientRole: r[1], HeldBeforeRegister: true}
+		out.emitGuarded(in, c20Obs{Panic: true}, func() any { return c20HeldBeforeRegister(t, in, rng) })
+	}
+	// … and meanwhile a second handler for the same peer comes, registers the peer and goes
+	for i, d := range []int{5, 60} {
+		r := roles[(i+1)%len(roles)]
+		in := c20In{Tag: "second-handler-registers-first", Gated: true, DelayMs: d, Streams: 1, ServerRole: r[0], ClientRole: r[1], HeldBeforeRegister: true, SecondHandler: true}
 		out.emitGuarded(in, c20Obs{Panic: true}, func() any { return c20HeldBeforeRegister(t, in, rng) })
 	}
 	// the same with a transport connection the responder dialed
